@@ -21,6 +21,15 @@ class TeeX:
         self.lock = threading.Lock()
 
 
+class _Failure:
+    # Wraps an exception raised by the source stream so that it travels through
+    # the tee window like an element and reaches every fork in stream order.
+    __slots__ = ('exc',)
+
+    def __init__(self, exc, /):
+        self.exc = exc
+
+
 class Fork:
     def __init__(
         self,
@@ -46,18 +55,31 @@ class Fork:
     def __next__(self):
         if self.next is None:
             if self.head.value is None:
-                with self.instream_lock:
-                    if self.head.value is None:
-                        # Get the very first data element out of `instream`
-                        # across all forks.
-                        # If this raises `StopIteration`, meaning `instream`
-                        # is empty, the exception will be propagated, halting
-                        # this fork. All the other forks will also get to this
-                        # point and exit the same way.
-                        x = next(self.instream)
-                        box = TeeX(x)
-                        self.buffer.put(box)
-                        self.head.value = box
+                # Do not block on the lock: the fork holding it may itself be blocked
+                # on a full window that only this fork can drain (in which case it has
+                # already set `head.value`).
+                while self.head.value is None:
+                    if not self.instream_lock.acquire(timeout=0.1):
+                        continue
+                    try:
+                        if self.head.value is None:
+                            # Get the very first data element out of `instream`
+                            # across all forks.
+                            # If this raises `StopIteration`, meaning `instream`
+                            # is empty, the exception will be propagated, halting
+                            # this fork. All the other forks will also get to this
+                            # point and exit the same way.
+                            try:
+                                x = next(self.instream)
+                            except StopIteration:
+                                raise
+                            except Exception as e:
+                                x = _Failure(e)
+                            box = TeeX(x)
+                            self.buffer.put(box)
+                            self.head.value = box
+                    finally:
+                        self.instream_lock.release()
                 self.next = self.head.value
                 return self.__next__()
             elif self._state == 0:
@@ -69,6 +91,11 @@ class Fork:
             else:
                 raise StopIteration
         else:
+            if isinstance(self.next.value, _Failure):
+                # `instream` raised at this position; every fork raises the same
+                # exception here, after the elements that came before it.
+                raise self.next.value.exc
+
             while self.next.next is None:
                 # During this loop while waiting on the `instream_lock`,
                 # `self.next.next` may become not None thanks to another Fork's
@@ -78,20 +105,28 @@ class Fork:
                 # the final data element in the buffer.
                 locked = self.instream_lock.acquire(timeout=0.1)
                 if locked:
-                    if self.next.next is None:
-                        try:
-                            x = next(self.instream)
-                        except StopIteration:
-                            # `instream` is exhausted.
-                            # `self.next.next` remains `None`.
-                            # The next call to `__next__` will land
-                            # in the first branch and raise `StopIteration`.
-                            pass
-                        else:
-                            box = TeeX(x)
-                            self.next.next = box  # IMPORTANT: this line goes before the next to avoid race.
-                            self.buffer.put(box)
-                    self.instream_lock.release()
+                    try:
+                        if self.next.next is None:
+                            try:
+                                x = next(self.instream)
+                            except StopIteration:
+                                # `instream` is exhausted.
+                                # `self.next.next` remains `None`.
+                                # The next call to `__next__` will land
+                                # in the first branch and raise `StopIteration`.
+                                pass
+                            else:
+                                box = TeeX(x)
+                                self.next.next = box  # IMPORTANT: this line goes before the next to avoid race.
+                                self.buffer.put(box)
+                    except Exception as e:
+                        # `instream` failed. Queue the failure like an element so that
+                        # every fork sees it in stream order.
+                        box = TeeX(_Failure(e))
+                        self.next.next = box
+                        self.buffer.put(box)
+                    finally:
+                        self.instream_lock.release()
                     break
 
             # Check whether the buffer head should be popped:
